@@ -29,7 +29,8 @@ func c03Alphabet(c c03cfg) func(m *model.Model) []drv.Op {
 			ops = append(ops, o)
 		}
 		for _, k := range c.keys {
-			add("Put(no index key)", drv.Op{K: drv.KPut, Item: with(k, "a", val.S("v"))})
+			// (the items carry a nested document: a rejected write must leave its members alone too)
+			add("Put(no index key)", drv.Op{K: drv.KPut, Item: with(k, "a", val.S("v"), "m", val.M("x", val.N("1"), "note", val.S("n")))})
 			if c.hasS {
 				add("Put(g=x,s=1)", drv.Op{K: drv.KPut, Item: with(k, "g", val.S("x"), "s", val.S("1"), "a", val.S("v"))})
 				add("Put(g=x,s=2)", drv.Op{K: drv.KPut, Item: with(k, "g", val.S("x"), "s", val.S("2"))})
@@ -38,13 +39,18 @@ func c03Alphabet(c c03cfg) func(m *model.Model) []drv.Op {
 				add("Upd(SET s)", drv.Op{K: drv.KUpd, Key: k, Upd: rx.U(rx.Set("s", rx.RV(":s"))), Values: map[string]val.V{":s": val.S("2")}})
 				add("Upd(REMOVE s)", drv.Op{K: drv.KUpd, Key: k, Upd: rx.U(rx.Remove("s"))})
 			} else {
-				add("Put(g=x)", drv.Op{K: drv.KPut, Item: with(k, "g", val.S("x"), "a", val.S("v"))})
+				add("Put(g=x)", drv.Op{K: drv.KPut, Item: with(k, "g", val.S("x"), "a", val.S("v"), "m", val.M("x", val.N("1"), "note", val.S("n")))})
 				add("Put(g=y)", drv.Op{K: drv.KPut, Item: with(k, "g", val.S("y"))})
 			}
 			add("Upd(SET g=x)", drv.Op{K: drv.KUpd, Key: k, Upd: rx.U(rx.Set("g", rx.RV(":g"))), Values: map[string]val.V{":g": val.S("x")}})
 			add("Upd(SET g=y)", drv.Op{K: drv.KUpd, Key: k, Upd: rx.U(rx.Set("g", rx.RV(":g"))), Values: map[string]val.V{":g": val.S("y")}})
 			add("Upd(REMOVE g)", drv.Op{K: drv.KUpd, Key: k, Upd: rx.U(rx.Remove("g"))})
 			add("Del", drv.Op{K: drv.KDel, Key: k})
+			if c.gsi2 {
+				// an item whose attribute a is a number: it is ill-typed for the index created later on a:S,
+				// stays out of it and must not keep the items after it from being indexed
+				add("Put(a is a number)", drv.Op{K: drv.KPut, Item: with(k, "a", val.N("5"), "g", val.S("x"))})
+			}
 		}
 		if c.clearOp {
 			add("ClearTable", drv.Op{K: drv.KClear})
